@@ -90,10 +90,11 @@ type phase struct {
 }
 
 type scenario struct {
-	Sessions []sessionPlan `json:"sessions"`
-	Sshd     []sshdItem    `json:"sshd"`
-	Audit    []auditItem   `json:"audit"`
-	Phases   []phase       `json:"phases"`
+	GoMaxProcs int           `json:"gomaxprocs"` // GOMAXPROCS of the daemon process, 0 = default (a CPU-limited container runs with 1 or 2)
+	Sessions   []sessionPlan `json:"sessions"`
+	Sshd       []sshdItem    `json:"sshd"`
+	Audit      []auditItem   `json:"audit"`
+	Phases     []phase       `json:"phases"`
 }
 
 // pids / session ids of generated sessions stay below these; the harness' own sentinel uses them
@@ -250,7 +251,7 @@ type protoItem struct {
 
 func genScenario(r *hutil.Rand) *scenario {
 	nSess := 1 + r.Intn(8)
-	sc := &scenario{}
+	sc := &scenario{GoMaxProcs: []int{0, 0, 0, 1, 2, 4}[r.Intn(6)]}
 	var seqs [][]*protoItem // per session: its items in the order they must be written
 	usedPID := map[int]bool{}
 	usedSes := map[int]bool{}
@@ -273,7 +274,7 @@ func genScenario(r *hutil.Rand) *scenario {
 		}
 	}
 	acceptedKind := func() string {
-		return hutil.Pick(r, []string{"accepted_password", "accepted_password", "accepted_key", "accepted_cert", "accepted_cert"})
+		return hutil.Pick(r, []string{"accepted_password", "accepted_password", "accepted_password", "accepted_key", "accepted_cert", "accepted_cert"})
 	}
 	au := func(role, typ string, pid int, ses string, si int, acct string) *protoItem {
 		return &protoItem{audit: &auditItem{Role: role, Type: typ, PID: pid, Ses: ses, Session: si}, acct: acct}
@@ -337,11 +338,26 @@ func genScenario(r *hutil.Rand) *scenario {
 		seq := audit
 		if len(sshdSide) > 0 {
 			pos := r.Intn(len(audit) + 1)
-			switch r.Intn(4) { // favour the interesting corners
-			case 0:
-				pos = 0
-			case 1:
-				pos = len(audit)
+			if kind == "full" {
+				li, end := 0, len(audit) // index of the LOGIN record; index just after the last mandatory record
+				for k, it := range audit {
+					if it.audit.Role == "login" {
+						li = k
+					}
+					if it.audit.Role == "stray" && end == len(audit) {
+						end = k
+					}
+				}
+				switch c := r.Intn(10); {
+				case c < 3: // before the LOGIN record
+					pos = r.Intn(li + 1)
+				case c < 6 && end-li > 1: // between the session's records
+					pos = li + 1 + r.Intn(end-li-1)
+				case c < 9: // after CRED_DISP / the last record
+					pos = end
+				default: // after the strays too
+					pos = len(audit)
+				}
 			}
 			seq = append(append(append([]*protoItem{}, audit[:pos]...), sshdSide...), audit[pos:]...)
 		}
@@ -349,7 +365,7 @@ func genScenario(r *hutil.Rand) *scenario {
 		sc.Sessions = append(sc.Sessions, sp)
 	}
 	// stand-alone failures (their own sshd processes)
-	for k := r.Intn(4); k > 0; k-- {
+	for k := 1 + r.Intn(3); k > 0; k-- {
 		it := genSshd(r, hutil.Pick(r, []string{"failed_password", "invalid_user", "invalid_user"}), newPID(), -1, genName(r))
 		n := 1
 		if it.Kind == "failed_password" && r.Chance(1, 3) {
@@ -386,15 +402,32 @@ func genScenario(r *hutil.Rand) *scenario {
 		}
 	}
 
-	// phases: cut the merged history at random item positions
-	nPh := 1 + r.Intn(4)
+	// phases: cut the merged history at random item positions, half of them just before or after an accepted
+	// login (so that "records first, login later" and "login first, records later" are really realised)
+	nPh := 1 + r.Intn(5)
 	if nPh > len(merged) {
 		nPh = 1
 	}
-	cutAt := map[int]bool{}
-	for len(cutAt) < nPh-1 {
-		cutAt[1+r.Intn(len(merged)-1)] = true
+	var nearLogin []int
+	for i, it := range merged {
+		if it.sshd != nil && it.sshd.accepted() {
+			if i > 0 {
+				nearLogin = append(nearLogin, i)
+			}
+			if i+1 < len(merged) {
+				nearLogin = append(nearLogin, i+1)
+			}
+		}
 	}
+	cutAt := map[int]bool{}
+	for tries := 0; len(cutAt) < nPh-1 && tries < 50; tries++ {
+		if len(nearLogin) > 0 && r.Bool() {
+			cutAt[hutil.Pick(r, nearLogin)] = true
+		} else {
+			cutAt[1+r.Intn(len(merged)-1)] = true
+		}
+	}
+	nPh = len(cutAt) + 1
 	ph := 0
 	for i, it := range merged {
 		if cutAt[i] {
@@ -466,7 +499,7 @@ func genScenario(r *hutil.Rand) *scenario {
 		}
 	}
 	for p := 0; p < nPh; p++ {
-		pp := phase{Sshd: texts[p][0], Audit: texts[p][1], Settle: r.Chance(3, 4)}
+		pp := phase{Sshd: texts[p][0], Audit: texts[p][1], Settle: r.Chance(4, 5)}
 		class := r.Intn(4)
 		pp.SshdCuts = genCuts(r, len(pp.Sshd), class)
 		pp.AuditCuts = genCuts(r, len(pp.Audit), []int{class, r.Intn(4)}[r.Intn(2)])
